@@ -21,7 +21,7 @@ RULE = (
     "a keyword, or a Decimal rule / length is present."
 )
 ASSUMPTIONS = [
-    "ANSI 'int' is judged as 32 bit only when both limits fit 32 bit (the standard leaves its precision open); open-ended Integer ranges are unjudged",
+    "ANSI 'int' is judged as 32 bit only when both limits fit 32 bit (the standard leaves its precision open) and as too small for limits beyond 64 bit; open-ended Integer ranges are unjudged",
     "a column type of the dialect: integer types without length, decimal precision at most 38 (PL/SQL, Transact-SQL) / 31 (DB2)",
     "PL/SQL 'int' is NUMBER(38); decimal(p)/number(p, 0) hold +-(10^p - 1)",
 ]
@@ -179,8 +179,13 @@ def check_cid(ctx, fields, dialect_names=None):
                     continue
                 lo, hi = limits
                 interval = integer_interval(dialect_name, col)
-                if dialect_name == "ANSI" and col["type"] == "int" and (lo < -(2**31) or hi > 2**31 - 1):
+                if dialect_name == "ANSI" and col["type"] == "int" and (lo < -(2**31) or hi > 2**31 - 1) and lo >= -(2**63) and hi <= 2**63 - 1:
                     ctx.unjudged("ANSI int for limits beyond 32 bit")
+                    continue
+                if dialect_name == "ANSI" and col["type"] == "int" and (lo < -(2**63) or hi > 2**63 - 1):
+                    # the standard leaves the precision of int to the implementation, but no implementation's int goes
+                    # beyond 64 bit (and the field describes such ranges as decimal with the digits they need)
+                    ctx.violation("C19:integer-type-too-small:ANSI:int", case, "int for a range beyond 64 bit", expected="decimal(%d, 0) or the like" % max(len(str(abs(lo))), len(str(abs(hi)))), observed=text)
                     continue
                 if col["type"] in INTERVALS and col["a"] is not None:
                     ctx.violation("C19:integer-type-with-length:%s:%s" % (dialect_name, col["type"]), case,
